@@ -39,7 +39,7 @@ Qed.
 (* ---------- the pages of a sequence of packets of one stream ---------- *)
 
 (* packet = (header type argument, payload, granule argument) *)
-Definition pkt3 : Type := (N * list N * N)%type.
+Notation pkt3 := (N * list N * N)%type (only parsing).
 
 Inductive packets_pages (serial : N) : N -> list pkt3 -> list opage -> Prop :=
 | pp_nil : forall idx, packets_pages serial idx [] []
@@ -597,7 +597,7 @@ Qed.
 Inductive stream_shape (serial : N) (pkts : list pkt3) (granule : N) (final : list opage) : Prop :=
 | shape_nil : forall pages nilP,
     packets_pages serial 0 pkts pages ->
-    nil_eos_page serial granule (N.of_nat (length pages)) nilP ->
+    nil_eos_page serial granule (u32 (N.of_nat (length pages))) nilP ->
     final = pages ++ [nilP] -> stream_shape serial pkts granule final
 | shape_mark : forall front P P',
     packets_pages serial 0 pkts (front ++ [P]) -> eos_of serial P P' ->
@@ -681,5 +681,246 @@ Proof.
     rewrite Hout, Hw. exists (map snd log ++ [nilP]). split.
     + f_equal. rewrite bytes_of_map, map_app. reflexivity.
     + eapply shape_nil; [exact Hpp | | reflexivity].
-      rewrite Hser, Hpi, Hg in Hnil. exact Hnil.
+      rewrite Hser, Hidx, Hg in Hnil. exact Hnil.
+Qed.
+
+(* ---------- header types, granules and sequence numbers of a packet's pages ---------- *)
+
+Definition npages (payload : list N) : nat := S (N.to_nat (N.of_nat (length payload) / full_page)).
+
+Lemma pph_plain : forall ht first c, ht = 0 \/ ht = ht_bos ->
+  packet_page_htype ht first c = if first then ht else 1.
+Proof. intros ht first c [-> | ->]; destruct first, c; reflexivity. Qed.
+
+Lemma div_full_step : forall r, full_page <= r -> r / full_page = (r - full_page) / full_page + 1.
+Proof.
+  intros r H. replace r with ((r - full_page) + 1 * full_page) at 1 by lia.
+  apply N.div_add. discriminate.
+Qed.
+
+Lemma chain_fields : forall ht gr serial idx first rem pgs,
+  chain ht gr serial idx first rem pgs -> (ht = 0 \/ ht = ht_bos) -> idx < 4294967296 ->
+  map pg_htype pgs = (if first then ht else 1) :: repeat 1 (N.to_nat (rem / full_page)) /\
+  map pg_granule pgs = repeat no_granule (N.to_nat (rem / full_page)) ++ [gr] /\
+  map pg_index pgs = map (fun j => u32 (idx + N.of_nat j)) (seq 0 (S (N.to_nat (rem / full_page)))).
+Proof.
+  intros ht gr serial idx first rem pgs Hch Hht.
+  induction Hch as [idx first rem pg Hr Hsegs Hlen Hh Hg Hi Hpb
+                   | idx first rem pg more Hr Hsegs Hlen Hh Hg Hi Hpb Hmore IH]; intros Hidx.
+  - rewrite N.div_small by exact Hr. cbn [N.to_nat repeat map app seq].
+    rewrite Hh, Hg, Hi, pph_plain by exact Hht.
+    change (N.of_nat 0) with 0. rewrite N.add_0_r, (u32_small idx Hidx). auto.
+  - destruct (IH (u32_lt _)) as (H1 & H2 & H3).
+    rewrite (div_full_step rem Hr).
+    replace (N.to_nat ((rem - full_page) / full_page + 1)) with (S (N.to_nat ((rem - full_page) / full_page))) by lia.
+    cbn [map repeat app]. rewrite Hh, Hg, Hi, H1, H2, H3, pph_plain by exact Hht.
+    split; [reflexivity|]. split; [reflexivity|].
+    set (n := S (N.to_nat ((rem - full_page) / full_page))).
+    replace (seq 0 (S n)) with (0%nat :: map S (seq 0 n)) by (rewrite seq_shift; reflexivity).
+    cbn [map].
+    replace (u32 (idx + N.of_nat 0)) with idx
+      by (change (N.of_nat 0) with 0; rewrite N.add_0_r; symmetry; apply u32_small; exact Hidx).
+    f_equal. rewrite map_map. apply map_ext. intros j.
+    unfold u32. rewrite N.add_mod_idemp_l by discriminate. f_equal. lia.
+Qed.
+
+Lemma chain_length : forall ht gr serial idx first rem pgs,
+  chain ht gr serial idx first rem pgs -> length pgs = S (N.to_nat (rem / full_page)).
+Proof.
+  intros ht gr serial idx first rem pgs Hch.
+  induction Hch as [idx first rem pg Hr | idx first rem pg more Hr _ _ _ _ _ _ _ IH].
+  - rewrite N.div_small by exact Hr. reflexivity.
+  - cbn [length]. rewrite IH, (div_full_step rem Hr). lia.
+Qed.
+
+Lemma seq_add : forall a n s, map (fun j => (a + j)%nat) (seq s n) = seq (a + s) n.
+Proof.
+  intros a n. induction n as [|n IH]; intros s; [reflexivity|].
+  cbn [seq map]. f_equal. rewrite IH. f_equal. lia.
+Qed.
+
+Definition plain_pkts (pkts : list pkt3) : Prop :=
+  Forall (fun pk => fst (fst pk) = 0 \/ fst (fst pk) = ht_bos) pkts.
+
+(* closed forms for the pages of a packet sequence *)
+Lemma pp_fields : forall serial idx pkts pages,
+  packets_pages serial idx pkts pages -> plain_pkts pkts -> idx < 4294967296 ->
+  map pg_htype pages
+    = flat_map (fun pk => fst (fst pk) :: repeat 1 (npages (snd (fst pk)) - 1)) pkts /\
+  map pg_granule pages
+    = flat_map (fun pk => repeat no_granule (npages (snd (fst pk)) - 1) ++ [snd pk]) pkts /\
+  map pg_index pages = map (fun j => u32 (idx + N.of_nat j)) (seq 0 (length pages)) /\
+  flat_map pg_payload pages = flat_map (fun pk => snd (fst pk)) pkts.
+Proof.
+  intros serial idx pkts pages Hpp.
+  induction Hpp as [idx | idx ht payload gr more pgs rest Hch Hpay Hmore IH]; intros Hplain Hidx.
+  - cbn. auto.
+  - inversion Hplain as [|? ? Hht Hrest]; subst. cbn [fst snd] in Hht.
+    destruct (chain_fields _ _ _ _ _ _ _ Hch Hht Hidx) as (H1 & H2 & H3).
+    destruct (IH Hrest (u32_lt _)) as (G1 & G2 & G3 & G4).
+    pose proof (chain_length _ _ _ _ _ _ _ Hch) as Hlen.
+    cbn [flat_map fst snd]. unfold npages at 1 3. cbn [Nat.sub]. rewrite Nat.sub_0_r.
+    rewrite !map_app, H1, H2, G1, G2, flat_map_app, G4.
+    split; [reflexivity|]. split; [reflexivity|]. split; [| reflexivity].
+    rewrite H3, G3, app_length, seq_app, map_app, <- Hlen. f_equal.
+    replace (seq (0 + length pgs) (length rest))
+      with (map (fun j => (length pgs + j)%nat) (seq 0 (length rest))).
+    2:{ rewrite seq_add. f_equal. lia. }
+    rewrite map_map. apply map_ext. intros j.
+    unfold u32. rewrite N.add_mod_idemp_l by discriminate. f_equal. lia.
+Qed.
+
+(* ---------- properties of a finished stream ---------- *)
+
+Definition has_bos (P : opage) : bool := N.testbit (pg_htype P) 1.
+Definition has_eos (P : opage) : bool := N.testbit (pg_htype P) 2.
+
+Lemma plain_htypes : forall pkts,
+  plain_pkts pkts ->
+  Forall (fun h => h = 0 \/ h = 1 \/ h = 2)
+         (flat_map (fun pk : pkt3 => fst (fst pk) :: repeat 1 (npages (snd (fst pk)) - 1)) pkts).
+Proof.
+  intros pkts H. induction H as [|pk pkts Hpk _ IH]; cbn [flat_map]; [constructor|].
+  constructor.
+  - destruct Hpk as [-> | ->]; auto.
+  - apply Forall_app. split; [| exact IH].
+    apply Forall_forall. intros x Hx. apply repeat_spec in Hx. auto.
+Qed.
+
+Lemma pages_no_eos : forall serial idx pkts pages,
+  packets_pages serial idx pkts pages -> plain_pkts pkts -> idx < 4294967296 ->
+  Forall (fun P => has_eos P = false) pages.
+Proof.
+  intros serial idx pkts pages Hpp Hplain Hidx.
+  destruct (pp_fields _ _ _ _ Hpp Hplain Hidx) as (H1 & _).
+  pose proof (plain_htypes pkts Hplain) as Hh. rewrite <- H1 in Hh.
+  apply Forall_forall. intros P HP. rewrite Forall_forall in Hh.
+  specialize (Hh (pg_htype P) (in_map pg_htype _ _ HP)). unfold has_eos.
+  destruct Hh as [-> | [-> | ->]]; reflexivity.
+Qed.
+
+Lemma eos_of_has_eos : forall serial P P', eos_of serial P P' -> has_eos P' = true.
+Proof.
+  intros serial P P' (_ & _ & _ & _ & Hh & _). unfold has_eos. rewrite Hh, N.lor_spec.
+  apply orb_true_r.
+Qed.
+
+Lemma eos_of_bos : forall serial P P', eos_of serial P P' -> has_bos P' = has_bos P.
+Proof.
+  intros serial P P' (_ & _ & _ & _ & Hh & _). unfold has_bos. rewrite Hh, N.lor_spec.
+  apply orb_false_r.
+Qed.
+
+(* c33_eos: the last page, and only the last page, carries end-of-stream *)
+Lemma shape_eos : forall serial pkts g final,
+  stream_shape serial pkts g final -> plain_pkts pkts ->
+  exists front L, final = front ++ [L] /\ has_eos L = true /\
+                  Forall (fun P => has_eos P = false) front.
+Proof.
+  intros serial pkts g final Hs Hplain.
+  destruct Hs as [pages nilP Hpp Hnil -> | front P P' Hpp Heos ->].
+  - exists pages, nilP. split; [reflexivity|]. split.
+    + destruct Hnil as (_ & _ & Hh & _). unfold has_eos. rewrite Hh. reflexivity.
+    + apply (pages_no_eos _ _ _ _ Hpp Hplain). reflexivity.
+  - exists front, P'. split; [reflexivity|]. split; [exact (eos_of_has_eos _ _ _ Heos)|].
+    pose proof (pages_no_eos _ _ _ _ Hpp Hplain ltac:(reflexivity)) as H.
+    apply Forall_app in H. apply H.
+Qed.
+
+(* c33_seq: page sequence numbers are 0, 1, 2, ... (mod 2^32) *)
+Lemma shape_seq : forall serial pkts g final,
+  stream_shape serial pkts g final -> plain_pkts pkts ->
+  map pg_index final = map (fun j => u32 (N.of_nat j)) (seq 0 (length final)).
+Proof.
+  intros serial pkts g final Hs Hplain.
+  destruct Hs as [pages nilP Hpp Hnil -> | front P P' Hpp Heos ->].
+  - destruct (pp_fields _ _ _ _ Hpp Hplain ltac:(reflexivity)) as (_ & _ & H3 & _).
+    rewrite map_app, app_length, seq_app, map_app, H3. cbn [length seq map Nat.add].
+    destruct Hnil as (_ & _ & _ & _ & Hi & _). rewrite Hi. reflexivity.
+  - destruct (pp_fields _ _ _ _ Hpp Hplain ltac:(reflexivity)) as (_ & _ & H3 & _).
+    rewrite map_app in *. rewrite app_length in *. cbn [map length] in *.
+    destruct Heos as (_ & _ & _ & Hi & _). rewrite Hi. exact H3.
+Qed.
+
+(* c33_granule: the granule position is set exactly on the page where a packet
+   ends and equals the granule argument of that packet; the nil EOS page
+   repeats the last one *)
+Definition granules_of (pkts : list pkt3) : list N :=
+  flat_map (fun pk : pkt3 => repeat no_granule (npages (snd (fst pk)) - 1) ++ [snd pk]) pkts.
+
+Lemma shape_granule : forall serial pkts g final,
+  stream_shape serial pkts g final -> plain_pkts pkts ->
+  map pg_granule final = granules_of pkts \/ map pg_granule final = granules_of pkts ++ [g].
+Proof.
+  intros serial pkts g final Hs Hplain.
+  destruct Hs as [pages nilP Hpp Hnil -> | front P P' Hpp Heos ->].
+  - right. destruct (pp_fields _ _ _ _ Hpp Hplain ltac:(reflexivity)) as (_ & H2 & _).
+    rewrite map_app, H2. cbn [map]. destruct Hnil as (_ & _ & _ & Hg & _). rewrite Hg. reflexivity.
+  - left. destruct (pp_fields _ _ _ _ Hpp Hplain ltac:(reflexivity)) as (_ & H2 & _).
+    rewrite map_app in *. cbn [map] in *. destruct Heos as (_ & _ & Hg & _). rewrite Hg. exact H2.
+Qed.
+
+(* granules of the packet list a writer builds: headers 0, then running sums *)
+Lemma granules_data : forall ps g,
+  map (fun pk : pkt3 => snd pk) (data_pkts g ps)
+  = map (fun k => gsum g (firstn (S k) ps)) (seq 0 (length ps)).
+Proof.
+  induction ps as [|[p n] ps IH]; intros g; [reflexivity|].
+  cbn [data_pkts map length seq firstn gsum]. f_equal.
+  rewrite IH, <- seq_shift, map_map. reflexivity.
+Qed.
+
+(* c33_bos_order, per stream: the first page carries BOS and the ID header,
+   no other page carries BOS *)
+Lemma shape_bos : forall serial idp more g final,
+  stream_shape serial ((ht_bos, idp, 0) :: more) g final ->
+  Forall (fun pk : pkt3 => fst (fst pk) = 0) more -> more <> [] ->
+  exists P0 rest, final = P0 :: rest /\ has_bos P0 = true /\
+                  Forall (fun P => has_bos P = false) rest /\
+                  (N.of_nat (length idp) < full_page -> pg_payload P0 = idp /\ pg_granule P0 = 0).
+Proof.
+  intros serial idp more g final Hs Hmore Hne.
+  assert (Hplain : plain_pkts ((ht_bos, idp, 0) :: more)).
+  { constructor; [right; reflexivity|]. eapply Forall_impl; [| exact Hmore]. intros pk H. left. exact H. }
+  assert (Hgen : forall pages, packets_pages serial 0 ((ht_bos, idp, 0) :: more) pages ->
+            exists P0 rest, pages = P0 :: rest /\ has_bos P0 = true /\ rest <> [] /\
+              Forall (fun P => has_bos P = false) rest /\
+              (N.of_nat (length idp) < full_page -> pg_payload P0 = idp /\ pg_granule P0 = 0)).
+  { intros pages Hpp.
+    destruct (pp_fields _ _ _ _ Hpp Hplain ltac:(reflexivity)) as (H1 & _).
+    inversion Hpp as [| ? ht payload gr more' pgs rest Hch Hpay Hrest]; subst.
+    destruct (chain_fields _ _ _ _ _ _ _ Hch ltac:(right; reflexivity) ltac:(reflexivity)) as (C1 & C2 & _).
+    destruct pgs as [|P0 pgs']; [discriminate C1|].
+    exists P0, (pgs' ++ rest). split; [reflexivity|].
+    cbn [map] in C1. injection C1 as Ch0 Chrest.
+    split; [unfold has_bos; rewrite Ch0; reflexivity|].
+    split.
+    { destruct more as [|pk more2]; [congruence|].
+      pose proof (packets_pages_nonempty _ _ _ _ _ Hrest) as Hn. destruct pgs'; destruct rest; try discriminate; congruence. }
+    split.
+    - apply Forall_app. split.
+      + apply Forall_forall. intros P HP. unfold has_bos.
+        assert (Hin : In (pg_htype P) (map pg_htype pgs')) by (apply in_map; exact HP).
+        rewrite Chrest in Hin. apply repeat_spec in Hin. rewrite Hin. reflexivity.
+      + assert (Hp2 : plain_pkts more) by (eapply Forall_impl; [| exact Hmore]; intros pk H; left; exact H).
+        destruct (pp_fields _ _ _ _ Hrest Hp2 (u32_lt _)) as (R1 & _).
+        apply Forall_forall. intros P HP. unfold has_bos.
+        assert (Hin : In (pg_htype P) (map pg_htype rest)) by (apply in_map; exact HP).
+        rewrite R1 in Hin. apply in_flat_map in Hin. destruct Hin as (pk & Hpk & Hin).
+        rewrite Forall_forall in Hmore. rewrite (Hmore pk Hpk) in Hin.
+        destruct Hin as [<- | Hin]; [reflexivity|]. apply repeat_spec in Hin. rewrite Hin. reflexivity.
+    - intros Hsmall. inversion Hch as [? ? ? pg Hr Hs' Hlen Hht Hgr Hidx Hpb | ? ? ? pg mr Hr]; subst;
+        [| unfold full_page in *; lia].
+      cbn [flat_map] in *. rewrite app_nil_r. split; [reflexivity | exact Hgr]. }
+  destruct Hs as [pages nilP Hpp Hnil -> | front P P' Hpp Heos ->].
+  - destruct (Hgen pages Hpp) as (P0 & rest & -> & Hb & _ & Hr & Hid).
+    exists P0, (rest ++ [nilP]). split; [reflexivity|]. split; [exact Hb|]. split; [| exact Hid].
+    apply Forall_app. split; [exact Hr|]. constructor; [| constructor].
+    destruct Hnil as (_ & _ & Hh & _). unfold has_bos. rewrite Hh. reflexivity.
+  - destruct (Hgen _ Hpp) as (P0 & rest & Heq & Hb & Hrne & Hr & Hid).
+    destruct (@exists_last _ rest Hrne) as (rfront & rl & ->).
+    rewrite app_comm_cons in Heq. apply app_inj_tail in Heq. destruct Heq as [-> ->].
+    exists P0, (rfront ++ [P']). split; [reflexivity|]. split; [exact Hb|]. split; [| exact Hid].
+    apply Forall_app in Hr. destruct Hr as [Hr1 Hr2]. apply Forall_app. split; [exact Hr1|].
+    constructor; [| constructor]. rewrite (eos_of_bos _ _ _ Heos). inversion Hr2; assumption.
 Qed.
